@@ -1,3 +1,669 @@
-use crate::harness::Gen;
-pub fn gens() -> Vec<Gen> { vec![] }
-pub fn child_check(_g: &str, _c: &crate::util::J) -> crate::harness::Verdict { crate::harness::Verdict::Trivial }
+//! C07: every public entry point returns Ok or Err on any input; nothing panics or hangs.
+
+use crate::gen_c06::arbitrary_selection;
+use crate::harness::{check_in_child, fail, Gen, Verdict};
+use crate::keys;
+use crate::oracle::Strategy;
+use crate::pipeline::{build_crafted, select_all, sign, Cfg};
+use crate::rng::Rng;
+use crate::sut::{self, Kb, Out};
+use crate::trees;
+use crate::util::{jstr, short, Parts, FAR_EXP, J};
+use serde_json::{json, Map};
+
+pub fn gens() -> Vec<Gen> {
+    vec![
+        Gen { name: "c07.unicode", prop: "C07", tags: &["unicode", "escape", "disclosure.rs", "non-bmp"], cases: cases_unicode, check },
+        Gen { name: "c07.crafted", prop: "C07", tags: &["crafted", "arity", "index", "holder.rs", "verifier.rs", "select_disclosures", "unpack"], cases: cases_crafted, check },
+        Gen { name: "c07.issuer_inputs", prop: "C07", tags: &["issuer", "path", "claims", "issuer.rs"], cases: cases_issuer_inputs, check },
+        Gen { name: "c07.garbage", prop: "C07", tags: &["garbage", "parse", "lib.rs"], cases: cases_garbage, check },
+        Gen { name: "c07.mutated", prop: "C07", tags: &["mutat", "truncate"], cases: cases_mutated, check },
+        Gen { name: "c07.selections", prop: "C07", tags: &["selection", "narrow"], cases: cases_selections, check },
+        Gen { name: "c07.deep", prop: "C07", tags: &["deep", "nest", "stack"], cases: cases_deep, check: check_deep },
+        Gen { name: "c07.random_crafted", prop: "C07", tags: &["random"], cases: cases_random_crafted, check },
+    ]
+}
+
+// ------------------------------------------------------------------ generators
+
+fn plane_samples() -> Vec<u32> {
+    let mut v = vec![0x0, 0x1, 0x1f, 0x7f, 0x80, 0xff, 0x7ff, 0x800, 0xfff, 0x1000, 0xd7ff, 0xe000, 0xfffd, 0xfffe, 0xffff];
+    for p in 1..=16u32 {
+        let b = p * 0x10000;
+        v.extend([b, b + 1, b + 0x1234, b + 0xfffe, b + 0xffff]);
+    }
+    v.extend([0xfffff, 0x100000, 0x10fffd, 0x10ffff, 0x1f600, 0x1d11e, 0x2028, 0x2029]);
+    v
+}
+
+fn cases_unicode(_rng: &mut Rng, sink: &mut dyn FnMut(J) -> bool) {
+    let mut n = 0usize;
+    for cp in plane_samples() {
+        let Some(c) = char::from_u32(cp) else { continue };
+        let s = format!("a{c}z");
+        for (claims, strategy) in [
+            (json!({"iss": "i", "exp": FAR_EXP, "v": s}), Strategy::AllLevels),
+            (json!({"iss": "i", "exp": FAR_EXP, s.clone(): "val", "o": {s.clone(): [s.clone()]}}), Strategy::AllLevels),
+            (json!({"iss": "i", "exp": FAR_EXP, "o": {"k": s, "l": [c.to_string()]}}), Strategy::TopLevel),
+            (json!({"iss": s, "exp": FAR_EXP, "v": [c.to_string(), {"k": c.to_string()}]}), Strategy::Custom(vec!["$.v[0]".into(), "$.v[1]".into()])),
+        ] {
+            n += 1;
+            let cfg = Cfg::simple(claims, strategy).variant(n);
+            let mut case = cfg.to_json();
+            case["op"] = json!("issue");
+            case["roundtrip"] = json!(true);
+            case["codepoint"] = json!(format!("U+{cp:04X}"));
+            if !sink(case) {
+                return;
+            }
+        }
+    }
+    // one string with a character of every plane
+    let all: String = (0..=16u32).filter_map(|p| char::from_u32(p * 0x10000 + 0x41)).chain((0..=16u32).filter_map(|p| char::from_u32(p * 0x10000 + 0xfffd))).collect();
+    let mut case = Cfg::simple(json!({"iss": "i", "exp": FAR_EXP, "all": all.clone(), all: {"x": 1}}), Strategy::AllLevels).to_json();
+    case["op"] = json!("issue");
+    case["roundtrip"] = json!(true);
+    sink(case);
+}
+
+fn cases_issuer_inputs(rng: &mut Rng, sink: &mut dyn FnMut(J) -> bool) {
+    let mut n = 0usize;
+    let strategies = [json!("AllLevels"), json!("TopLevel"), json!("NoSD"), json!({"Custom": ["$.a"]}), json!({"Custom": []})];
+    // non-object claims and odd objects
+    for claims in [
+        json!(null), json!(true), json!(0), json!(-1.5), json!(""), json!("str"), json!([]), json!([{}]), json!([1, [2]]), json!({}), json!({"": ""}),
+        json!({"iss": null}), json!({"iss": {}, "exp": [], "iat": {"a": [1]}}), json!({"exp": "x"}), json!({"cnf": 1}), json!({"_sd_alg": "x"}), json!({"a": {"_sd_alg": 1}}),
+        json!({"_sd": 1}), json!({"a": [{"...": 1}]}), json!({"a": {"...": {"_sd": []}}}),
+    ] {
+        for s in &strategies {
+            for holder in [J::Null, json!("es256")] {
+                n += 1;
+                let case = json!({"op": "issue", "claims": claims, "strategy": s, "format": if n % 2 == 0 { "compact" } else { "json" }, "alg": "ES256", "decoys": n % 3 == 0, "holder": holder, "roundtrip": true});
+                if !sink(case) {
+                    return;
+                }
+            }
+        }
+    }
+    // algorithm / key mismatches
+    for (alg, key) in [("XX", "ES256"), ("", "ES256"), ("none", "ES256"), ("EdDSA", "ES256"), ("ES256", "EdDSA"), ("HS256", "ES256"), ("ES256", "HS256"), ("RS256", "ES256"), ("ES384", "ES256"), ("es256", "ES256")] {
+        let case = json!({"op": "issue", "claims": {"iss": "i", "exp": FAR_EXP, "a": 1}, "strategy": "AllLevels", "format": "compact", "alg_string": alg, "alg": key, "decoys": false, "holder": null});
+        if !sink(case) {
+            return;
+        }
+    }
+    // arbitrary path strings
+    let base = json!({"iss": "i", "exp": FAR_EXP, "a": {"b": [1, {"c": 2}], "": 3, "[0]": 4}, "": {"": 1}, "[0]": 5, "a.b": 6, "\u{1F600}": {"\u{e9}": [1]}});
+    let fixed = [
+        "", "$", "$.", "$..", "$...", "$.a", "$.a.", "$.a..b", "$.a.b[", "$.a.b[]", "$.a.b[0", "$.a.b[0]]", "$.a.b[[0]]", "$.a.b[18446744073709551616]", "$.a.b[-0]", "$.a.b[0][0][0]",
+        "$.[0]", "$.[", "$.]", "$.a[", "$.a.b.[1].c", "$.a.b[1].c.", "$.\u{1F600}", "$.\u{1F600}.\u{e9}[0]", "$.\u{1F600}.\u{e9}x", "$.a\u{0}", "$.a.b[1]\u{1F600}", "$.a.b", "$.a.b[1]",
+        "$$", "a", "\u{1F600}", "$.a.[0]", "$.[0].x", "$..", "$. ", "$.a .b",
+    ];
+    for p in fixed {
+        for extra in [None, Some("$.a")] {
+            let mut paths = vec![json!(p)];
+            if let Some(e) = extra {
+                paths.insert(0, json!(e));
+            }
+            n += 1;
+            let case = json!({"op": "issue", "claims": base, "strategy": {"Custom": paths}, "format": if n % 2 == 0 { "compact" } else { "json" }, "alg": "ES256", "decoys": n % 2 == 1, "holder": null, "roundtrip": true});
+            if !sink(case) {
+                return;
+            }
+        }
+    }
+    let alphabet: Vec<char> = "$.[]ab01 \u{e9}\u{1F600}".chars().collect();
+    loop {
+        let len = rng.below(10);
+        let mut p = if rng.chance(3, 4) { String::from("$.") } else { String::new() };
+        for _ in 0..len {
+            p.push(*rng.pick(&alphabet));
+        }
+        n += 1;
+        let case = json!({"op": "issue", "claims": base, "strategy": {"Custom": [p]}, "format": if n % 2 == 0 { "compact" } else { "json" }, "alg": "ES256", "decoys": false, "holder": null, "roundtrip": n % 4 == 0});
+        if !sink(case) {
+            return;
+        }
+        if n > 6000 {
+            return;
+        }
+    }
+}
+
+/// Disclosure shapes: every JSON kind and arity 0..5, wrong element types, reserved names.
+pub fn disclosure_shapes() -> Vec<J> {
+    vec![
+        json!(null), json!(true), json!(1), json!("s"), json!({}), json!({"a": 1}),
+        json!([]), json!(["salt"]), json!(["salt", "n"]), json!(["salt", "n", "v"]), json!(["salt", "n", "v", "x"]), json!(["salt", "n", "v", "x", "y"]),
+        json!(["salt", 5, "v"]), json!(["salt", null, "v"]), json!(["salt", ["n"], "v"]), json!(["salt", {"a": 1}, "v"]), json!([1, 2, 3]), json!([1, 2]), json!([null]),
+        json!(["salt", "_sd", "v"]), json!(["salt", "...", "v"]), json!(["salt", "_sd_alg", "v"]), json!(["salt", "", "v"]), json!(["salt", "vis", "v"]), json!(["salt", "iss", "v"]),
+        json!(["salt", "n", {"_sd": 5}]), json!(["salt", "n", {"_sd": [5]}]), json!(["salt", "n", [{"...": 5}]]), json!(["salt", "n", [{"...": "x", "y": 1}]]),
+        json!(["salt", {"_sd": ["x"]}]), json!(["salt", [{"...": null}]]), json!(["salt", "x"]), json!(["salt", ["x"]]), json!(["salt", {"k": "v"}]),
+        json!({"$raw": "!!notbase64"}), json!({"$raw": ""}), json!({"$raw": "bm90anNvbg"}), json!({"$raw": "W10"}),
+    ]
+}
+
+fn holder_selections() -> J {
+    json!([
+        {},
+        {"n": true},
+        {"n": {"x": true}, "o": {"n": true, "m": {"k": true}}},
+        {"n": [true, [true], {"x": true}], "arr": [true, true, [true], {"x": true}, true], "o": {"n": [true]}},
+        {"vis": true, "o": true, "arr": true},
+        {"arr": [{"n": true}, {"n": true}], "o": {"n": {"n": true}}, "s": true, "v": true}
+    ])
+}
+
+fn cases_crafted(_rng: &mut Rng, sink: &mut dyn FnMut(J) -> bool) {
+    let base = |extra: J| -> J {
+        let mut m = json!({"iss": "https://issuer.example/i", "exp": FAR_EXP, "vis": "v"});
+        for (k, v) in extra.as_object().unwrap() {
+            m[k] = v.clone();
+        }
+        m
+    };
+    let mut n = 0usize;
+    let mut emit = |payload: J, disclosures: Vec<J>, present_only: Option<Vec<usize>>, sink: &mut dyn FnMut(J) -> bool| -> bool {
+        n += 1;
+        let case = json!({
+            "op": "crafted", "payload": payload, "disclosures": disclosures, "present": present_only,
+            "format": if n % 2 == 0 { "compact" } else { "json" }, "key": "ES256", "selections": holder_selections(), "kb": n % 5 == 0
+        });
+        sink(case)
+    };
+    // each disclosure shape referenced from each kind of position
+    for d in disclosure_shapes() {
+        let positions: Vec<(J, Vec<J>)> = vec![
+            (base(json!({"_sd": ["#0"]})), vec![d.clone()]),
+            (base(json!({"o": {"_sd": ["#0"], "p": 1}})), vec![d.clone()]),
+            (base(json!({"arr": [{"...": "#0"}, "x"]})), vec![d.clone()]),
+            (base(json!({"arr": [[{"...": "#0"}]]})), vec![d.clone()]),
+            (base(json!({"_sd": ["#0"]})), vec![json!(["s0", "o", {"_sd": ["#1"]}]), d.clone()]),
+            (base(json!({"_sd": ["#0"]})), vec![json!(["s0", "arr", [{"...": "#1"}, 1]]), d.clone()]),
+            (base(json!({"arr": [{"...": "#0"}]})), vec![json!(["s0", {"_sd": ["#1"]}]), d.clone()]),
+            (base(json!({"arr": [{"...": "#0"}]})), vec![json!(["s0", [{"...": "#1"}]]), d.clone()]),
+            // unreferenced
+            (base(json!({"_sd": ["nomatch"]})), vec![d.clone()]),
+        ];
+        for (p, ds) in positions {
+            if !emit(p, ds, None, sink) {
+                return;
+            }
+        }
+    }
+    // malformed payload structure (no disclosure problems)
+    let good = json!(["s", "n", "v"]);
+    for p in [
+        json!({"exp": FAR_EXP, "_sd": ["#0"]}),
+        json!({"iss": "i", "_sd": ["#0"]}),
+        json!({"_sd": ["#0"]}),
+        json!({}),
+        json!({"iss": 5, "exp": FAR_EXP}), json!({"iss": null, "exp": FAR_EXP}), json!({"iss": [], "exp": FAR_EXP}), json!({"iss": {}, "exp": FAR_EXP}),
+        json!({"iss": "i", "exp": "x"}), json!({"iss": "i", "exp": null}), json!({"iss": "i", "exp": -1}), json!({"iss": "i", "exp": 1e300}), json!({"iss": "i", "exp": FAR_EXP, "nbf": "x"}),
+        json!({"iss": "i", "exp": FAR_EXP, "aud": ["a"], "sub": 5}),
+        base(json!({"_sd": "str"})), base(json!({"_sd": 5})), base(json!({"_sd": null})), base(json!({"_sd": {}})), base(json!({"_sd": {"_sd": ["#0"]}})), base(json!({"_sd": [5]})), base(json!({"_sd": [null, "#0"]})),
+        base(json!({"_sd": [["#0"]]})), base(json!({"_sd": [{"...": "#0"}]})), base(json!({"_sd": ["#0", "#0"]})), base(json!({"_sd": []})),
+        base(json!({"arr": [{"...": 5}]})), base(json!({"arr": [{"...": null}]})), base(json!({"arr": [{"...": ["#0"]}]})), base(json!({"arr": [{"...": "#0", "x": 1}]})), base(json!({"arr": [{"...": {"...": "#0"}}]})),
+        base(json!({"...": "#0"})), base(json!({"o": {"...": "#0"}})), base(json!({"_sd_alg": 5})), base(json!({"_sd_alg": null})), base(json!({"_sd_alg": []})), base(json!({"_sd_alg": "md5"})), base(json!({"_sd_alg": "sha-256", "_sd": ["#0"]})),
+        base(json!({"o": {"_sd_alg": "x", "_sd": ["#0"]}})),
+        base(json!({"cnf": 5})), base(json!({"cnf": "s"})), base(json!({"cnf": []})), base(json!({"cnf": {}})), base(json!({"cnf": {"jwk": 5}})), base(json!({"cnf": {"jwk": {}}})), base(json!({"cnf": {"jwk": {"kty": "EC"}}})),
+        base(json!({"cnf": {"jwk": {"kty": "XX"}}})), base(json!({"cnf": {"jwk": {"kty": "EC", "crv": "P-256", "x": "AA", "y": "AA"}}})), base(json!({"cnf": {"jwk": {"kty": "OKP", "crv": "Ed25519", "x": ""}}})),
+        base(json!({"cnf": {"jwk": {"kty": "RSA", "n": "AQAB", "e": "AQAB"}}})), base(json!({"cnf": {"jwk": {"kty": "oct", "k": "AAAA"}}})),
+    ] {
+        for kb in [false, true] {
+            n += 1;
+            let case = json!({
+                "op": "crafted", "payload": p, "disclosures": [good], "present": null,
+                "format": if n % 2 == 0 { "compact" } else { "json" }, "key": "ES256", "selections": holder_selections(), "kb": kb, "garbage_kb": kb
+            });
+            if !sink(case) {
+                return;
+            }
+        }
+    }
+}
+
+fn cases_random_crafted(rng: &mut Rng, sink: &mut dyn FnMut(J) -> bool) {
+    // random structures mixing references, shapes and plain data
+    let shapes = disclosure_shapes();
+    let mut n = 0usize;
+    loop {
+        n += 1;
+        let nd = 1 + rng.below(4);
+        let mut ds: Vec<J> = Vec::new();
+        for k in 0..nd {
+            let mut d = rng.pick(&shapes).clone();
+            if k + 1 < nd && rng.coin() {
+                // make it reference the next one
+                d = match rng.below(4) {
+                    0 => json!(["s", format!("n{k}"), {"_sd": [format!("#{}", k + 1)]}]),
+                    1 => json!(["s", format!("n{k}"), [{"...": format!("#{}", k + 1)}]]),
+                    2 => json!(["s", {"_sd": [format!("#{}", k + 1)], "q": 1}]),
+                    _ => json!(["s", [{"...": format!("#{}", k + 1)}, 2]]),
+                };
+            }
+            ds.push(d);
+        }
+        let r = |rng: &mut Rng| format!("#{}", rng.below(nd));
+        let payload = json!({
+            "iss": "i", "exp": FAR_EXP, "vis": 1,
+            "_sd": [r(rng), if rng.coin() { json!(r(rng)) } else { json!("decoy") }],
+            "o": {"_sd": [r(rng)], "p": {"_sd": if rng.coin() { json!([r(rng)]) } else { json!(7) }}},
+            "arr": [{"...": r(rng)}, if rng.coin() { json!({"...": r(rng)}) } else { json!([{"...": r(rng)}]) }, "x"]
+        });
+        let case = json!({
+            "op": "crafted", "payload": payload, "disclosures": ds, "present": null,
+            "format": if n % 2 == 0 { "compact" } else { "json" }, "key": "ES256", "selections": holder_selections(), "kb": false
+        });
+        if !sink(case) {
+            return;
+        }
+    }
+}
+
+fn cases_garbage(rng: &mut Rng, sink: &mut dyn FnMut(J) -> bool) {
+    let fixed = [
+        "", "~", "~~", "~~~", ".", "..", "...", "a", "a~", "a.b", "a.b~", "a.b.c", "a.b.c~", "a.b.c~~", "a.b.c~d~", ".~", "..~", "e30.e30.~", "e30.e30.e30~", "e30.W10.e30~", "e30.bnVsbA.x~", "e30.IiI.x~",
+        "eyJhbGciOiJFUzI1NiJ9.e30.AA~", "eyJhbGciOiJub25lIn0.e30.~", "eyJhbGciOjV9.e30.AA~", "eyJhbGciOiJFUzI1NiJ9.eyJpc3MiOiJpIn0.AA~", "eyJhbGciOiJFUzI1NiJ9.eyJpc3MiOjV9.AA~",
+        "\u{0}", "\u{1F600}~\u{1F600}", "a.\u{e9}.c~", " ", "\n", "a.b.c~ ~", "a.b.c~%~",
+        "{}", "[]", "null", "5", "\"s\"", "{\"protected\":\"a\"}", "{\"protected\":\"a\",\"payload\":\"b\",\"signature\":\"c\"}",
+        "{\"protected\":\"a\",\"payload\":\"e30\",\"signature\":\"c\",\"disclosures\":[]}", "{\"protected\":\"a\",\"payload\":\"e30\",\"signature\":\"c\",\"disclosures\":[],\"kb_jwt\":null}",
+        "{\"protected\":\"\",\"payload\":\"\",\"signature\":\"\",\"disclosures\":[\"\"],\"kb_jwt\":\"\"}", "{\"protected\":5,\"payload\":\"e30\",\"signature\":\"c\",\"disclosures\":[]}",
+        "{\"protected\":\"a\",\"payload\":\"e30\",\"signature\":\"c\",\"disclosures\":[5]}", "{\"protected\":\"a\",\"payload\":\"e30\",\"signature\":\"c\",\"disclosures\":{}}",
+        "{\"protected\":\"a\",\"payload\":\"e30\",\"signature\":\"c\",\"disclosures\":[],\"kb_jwt\":5}", "{\"protected\":\"a.b\",\"payload\":\"e30.x\",\"signature\":\"c.d\",\"disclosures\":[\"~\"],\"kb_jwt\":\"~\"}",
+        "{\"protected\":\"eyJhbGciOiJFUzI1NiJ9\",\"payload\":\"e30\",\"signature\":\"AA\",\"disclosures\":[\"W10\"],\"kb_jwt\":\"a.b.c\"}",
+        "{\"protected\":\"eyJhbGciOiJFUzI1NiJ9\",\"payload\":\"W10\",\"signature\":\"AA\",\"disclosures\":[]}", "{\"protected\":\"eyJhbGciOiJFUzI1NiJ9\",\"payload\":\"bnVsbA\",\"signature\":\"AA\",\"disclosures\":[]}",
+    ];
+    let mut n = 0;
+    for t in fixed {
+        for format in ["compact", "json"] {
+            for kb in [false, true] {
+                n += 1;
+                if !sink(json!({"op": "text", "text": t, "format": format, "kb": kb, "n": n})) {
+                    return;
+                }
+            }
+        }
+    }
+    // random byte strings over a token-ish alphabet
+    let alphabet: Vec<char> = "abAB09-_.~=e{}[]\":, \u{e9}\u{1F600}\u{0}yJ".chars().collect();
+    for _ in 0..4000 {
+        let len = rng.below(40);
+        let t: String = (0..len).map(|_| *rng.pick(&alphabet)).collect();
+        let format = if rng.coin() { "compact" } else { "json" };
+        if !sink(json!({"op": "text", "text": t, "format": format, "kb": rng.coin()})) {
+            return;
+        }
+    }
+}
+
+fn cases_mutated(rng: &mut Rng, sink: &mut dyn FnMut(J) -> bool) {
+    // grammar-aware mutations first
+    let mut structural: Vec<J> = Vec::new();
+    for i in 0..6 {
+        for sep in ["~", "."] {
+            structural.push(json!({"kind": "drop", "sep": sep, "idx": i}));
+            structural.push(json!({"kind": "dup", "sep": sep, "idx": i}));
+            structural.push(json!({"kind": "swap", "sep": sep, "i": i, "j": (i + 1) % 6}));
+            structural.push(json!({"kind": "empty", "sep": sep, "idx": i}));
+        }
+    }
+    for member in ["protected", "payload", "signature", "disclosures", "kb_jwt"] {
+        structural.push(json!({"kind": "json_remove", "member": member}));
+        for v in [json!(null), json!(5), json!(""), json!([]), json!({}), json!([5]), json!(["", ""]), json!("e30"), json!("W10"), json!("bnVsbA"), json!("a.b.c"), json!("~")] {
+            structural.push(json!({"kind": "json_member", "member": member, "value": v}));
+        }
+    }
+    for stage in ["issued", "presentation"] {
+        for format in ["compact", "json"] {
+            for kb in [false, true] {
+                for m in &structural {
+                    if !sink(json!({"op": "mutated", "stage": stage, "format": format, "kb": kb, "mutation": m})) {
+                        return;
+                    }
+                }
+            }
+        }
+    }
+    // every prefix
+    for format in ["compact", "json"] {
+        for len in 0..1400 {
+            if !sink(json!({"op": "mutated", "stage": "presentation", "format": format, "kb": len % 2 == 0, "mutation": {"kind": "truncate", "len": len}})) {
+                return;
+            }
+        }
+    }
+    let chars = ["~", ".", "=", "A", "\"", "{", "}", "[", ",", ":", " ", "\u{e9}", "\u{1F600}", "\\", "\u{0}"];
+    loop {
+        let m = json!({"kind": "byte", "pos": rng.below(1400), "ch": *rng.pick(&chars), "insert": rng.coin()});
+        let format = if rng.coin() { "compact" } else { "json" };
+        if !sink(json!({"op": "mutated", "stage": if rng.coin() { "issued" } else { "presentation" }, "format": format, "kb": rng.coin(), "mutation": m})) {
+            return;
+        }
+    }
+}
+
+fn cases_selections(rng: &mut Rng, sink: &mut dyn FnMut(J) -> bool) {
+    let cat = trees::catalog();
+    let fixed_sel = [
+        json!({"zzz": {"a": true}}), json!({"zzz": true}), json!({"zzz": [true]}), json!({"a": {"zzz": {"q": true}}}), json!({"a": [[[[[true]]]]]}), json!({"a": {"b": {"c": {"d": {"e": {"f": true}}}}}}),
+        json!({"iss": {"x": true}}), json!({"exp": [true]}), json!({"_sd": true}), json!({"_sd": [true, true]}), json!({"_sd": {"x": true}}), json!({"...": true}), json!({"_sd_alg": {"a": true}}), json!({"cnf": {"jwk": {"x": true}}}),
+    ];
+    let mut n = 0usize;
+    for t in &cat {
+        let claims = trees::with_std(t, 0);
+        for s in [Strategy::AllLevels, Strategy::TopLevel, Strategy::NoSD] {
+            for sel in &fixed_sel {
+                n += 1;
+                let mut case = Cfg::simple(claims.clone(), s.clone()).variant(n).to_json();
+                case["op"] = json!("select");
+                case["selection"] = sel.clone();
+                case["narrow"] = if n % 2 == 0 { json!({}) } else { J::Null };
+                if !sink(case) {
+                    return;
+                }
+            }
+        }
+    }
+    loop {
+        n += 1;
+        let claims = trees::with_std(&cat[n % cat.len()], n);
+        let strategy = if n % 2 == 0 { Strategy::AllLevels } else { Strategy::TopLevel };
+        let sel = arbitrary_selection(rng, &claims, 5);
+        let narrow = match n % 3 {
+            0 => J::Null,
+            1 => json!({}),
+            _ => arbitrary_selection(rng, &claims, 3),
+        };
+        let mut case = Cfg::simple(claims, strategy).variant(n).to_json();
+        case["op"] = json!("select");
+        case["selection"] = if sel.is_object() { sel } else { json!({ "a": sel }) };
+        case["narrow"] = if narrow.is_object() || narrow.is_null() { narrow } else { json!({}) };
+        if !sink(case) {
+            return;
+        }
+    }
+}
+
+fn nested(depth: usize, kind: usize) -> J {
+    let mut v = json!("leaf\u{1F600}");
+    for d in 0..depth {
+        v = match (kind, d % 2) {
+            (0, _) | (2, 0) => json!({ "k": v }),
+            _ => json!([v]),
+        };
+    }
+    v
+}
+
+fn cases_deep(_rng: &mut Rng, sink: &mut dyn FnMut(J) -> bool) {
+    for depth in [16usize, 32, 48, 63] {
+        for kind in 0..3 {
+            for s in [json!("AllLevels"), json!("NoSD"), json!("TopLevel")] {
+                let claims = json!({"iss": "i", "exp": FAR_EXP, "d": nested(depth, kind)});
+                let case = json!({"op": "issue", "claims": claims, "strategy": s, "format": if depth % 32 == 0 { "json" } else { "compact" }, "alg": "ES256", "decoys": kind == 1, "holder": null, "roundtrip": true});
+                if !sink(case) {
+                    return;
+                }
+            }
+        }
+        // deep selection on a shallow credential, deep crafted payload
+        let case = json!({"op": "select", "claims": {"iss": "i", "exp": FAR_EXP, "d": {"k": [1]}}, "strategy": "AllLevels", "format": "compact", "alg": "ES256", "decoys": false, "holder": null, "selection": {"d": nested(depth, 2)}, "narrow": null});
+        if !sink(case) {
+            return;
+        }
+        let case = json!({"op": "crafted", "payload": {"iss": "i", "exp": FAR_EXP, "d": nested(depth, 2), "_sd": ["#0"]}, "disclosures": [["s", "n", nested(depth, 1)]], "present": null, "format": "json", "key": "ES256", "selections": [{"n": nested(depth, 1), "d": nested(depth, 2)}], "kb": false});
+        if !sink(case) {
+            return;
+        }
+    }
+}
+
+// ------------------------------------------------------------------ execution
+
+struct Log {
+    panics: Vec<String>,
+    steps: usize,
+}
+
+impl Log {
+    fn note<T>(&mut self, what: &str, o: &Out<T>) {
+        self.steps += 1;
+        if let Out::Panic(m) = o {
+            self.panics.push(format!("{what} -> PANIC: {m}"));
+        }
+    }
+}
+
+fn exercise_text(text: &str, format: &str, kb: bool, key: &str, selections: &[Map<String, J>], log: &mut Log) {
+    let h = sut::holder_new(text, format);
+    log.note(&format!("SDJWTHolder::new({})", short(text, 120)), &h);
+    if let Out::Ok(mut h) = h {
+        for sel in selections {
+            let o = sut::present(&mut h, sel, None);
+            log.note(&format!("create_presentation({})", short(&jstr(&J::Object(sel.clone())), 200)), &o);
+            if let Out::Ok(p) = o {
+                // a returned presentation is fed onward
+                let v = sut::verify(&p, key, None, format);
+                log.note("SDJWTVerifier::new(holder output)", &v);
+            }
+        }
+        if kb {
+            let k = Kb::new("es256");
+            let o = sut::present(&mut h, selections.first().unwrap_or(&Map::new()), Some(&k));
+            log.note("create_presentation with key binding", &o);
+        }
+    }
+    let v = sut::verify(text, key, None, format);
+    log.note(&format!("SDJWTVerifier::new({})", short(text, 120)), &v);
+    if kb {
+        let k = Kb::new("es256");
+        let v = sut::verify(text, key, Some(&k), format);
+        log.note(&format!("SDJWTVerifier::new({}, aud, nonce)", short(text, 120)), &v);
+    }
+}
+
+fn default_selections() -> Vec<Map<String, J>> {
+    vec![Map::new(), json!({"a": true, "b": {"c": true}}).as_object().unwrap().clone()]
+}
+
+fn mutate_text(text: &str, format: &str, m: &J) -> Option<String> {
+    let kind = m["kind"].as_str()?;
+    match kind {
+        "truncate" => {
+            let len = m["len"].as_u64()? as usize;
+            let cs: Vec<char> = text.chars().collect();
+            if len >= cs.len() {
+                return None;
+            }
+            Some(cs[..len].iter().collect())
+        }
+        "byte" => {
+            let mut cs: Vec<char> = text.chars().collect();
+            let pos = (m["pos"].as_u64()? as usize) % (cs.len() + 1);
+            let ch = m["ch"].as_str()?.chars().next()?;
+            if m["insert"].as_bool().unwrap_or(false) || pos == cs.len() {
+                cs.insert(pos, ch);
+            } else {
+                cs[pos] = ch;
+            }
+            Some(cs.into_iter().collect())
+        }
+        "drop" | "dup" | "swap" | "empty" => {
+            let sep = m["sep"].as_str()?;
+            let (prefix, body, suffix) = if format == "json" {
+                // operate on the protected.payload.signature / disclosures inside the JSON via Parts
+                let p = Parts::parse(text, "json")?;
+                let c = p.to_compact();
+                (String::new(), c, String::from("json"))
+            } else {
+                (String::new(), text.to_string(), String::new())
+            };
+            let mut segs: Vec<String> = body.split(sep).map(String::from).collect();
+            let idx = m["idx"].as_u64().unwrap_or(0) as usize;
+            match kind {
+                "drop" => {
+                    if idx >= segs.len() {
+                        return None;
+                    }
+                    segs.remove(idx);
+                }
+                "dup" => {
+                    if idx >= segs.len() {
+                        return None;
+                    }
+                    let s = segs[idx].clone();
+                    segs.insert(idx, s);
+                }
+                "empty" => {
+                    if idx >= segs.len() {
+                        return None;
+                    }
+                    segs[idx] = String::new();
+                }
+                _ => {
+                    let (i, j) = (m["i"].as_u64()? as usize, m["j"].as_u64()? as usize);
+                    if i >= segs.len() || j >= segs.len() {
+                        return None;
+                    }
+                    segs.swap(i, j);
+                }
+            }
+            let out = format!("{prefix}{}", segs.join(sep));
+            if suffix == "json" {
+                // back to JSON: tolerate any number of dots by using the raw splitting of Parts
+                let p = Parts::parse(&out, "compact")?;
+                Some(p.to_json())
+            } else {
+                Some(out)
+            }
+        }
+        "json_remove" | "json_member" => {
+            if format != "json" {
+                return None;
+            }
+            let mut v: J = serde_json::from_str(text).ok()?;
+            let member = m["member"].as_str()?;
+            if kind == "json_remove" {
+                v.as_object_mut()?.shift_remove(member);
+            } else {
+                v[member] = m["value"].clone();
+            }
+            Some(jstr(&v))
+        }
+        _ => None,
+    }
+}
+
+fn check_inproc(case: &J) -> Verdict {
+    let mut log = Log { panics: vec![], steps: 0 };
+    let op = case["op"].as_str().unwrap_or("");
+    let format = case["format"].as_str().unwrap_or("compact");
+    match op {
+        "issue" => {
+            let Some(strategy) = Strategy::from_json(&case["strategy"]) else { return Verdict::Trivial };
+            let key = case["alg"].as_str().unwrap_or("ES256");
+            let alg_string = case["alg_string"].as_str().map(String::from).unwrap_or_else(|| keys::alg_of(key).to_string());
+            let mut issuer = sut::new_issuer_with(keys::issuer_enc(key), Some(alg_string));
+            let o = sut::issue_on(&mut issuer, &case["claims"], &strategy, case["holder"].as_str(), case["decoys"].as_bool().unwrap_or(false), format);
+            log.note(&format!("issue_sd_jwt(claims = {}, strategy = {})", short(&jstr(&case["claims"]), 300), jstr(&case["strategy"])), &o);
+            if let (Out::Ok(s), true) = (&o, case["roundtrip"].as_bool().unwrap_or(false)) {
+                let mut sels = vec![select_all(&case["claims"]), Map::new()];
+                if let Some(m) = case["claims"].as_object() {
+                    sels.push(m.clone());
+                }
+                exercise_text(s, format, false, key, &sels, &mut log);
+            }
+        }
+        "text" => {
+            let text = case["text"].as_str().unwrap_or("");
+            exercise_text(text, format, case["kb"].as_bool().unwrap_or(false), "ES256", &default_selections(), &mut log);
+        }
+        "mutated" => {
+            let holder = if case["kb"].as_bool().unwrap_or(false) { Some("es256".to_string()) } else { None };
+            let cfg = Cfg { claims: json!({"iss": "i", "exp": FAR_EXP, "a": "x", "b": {"c": 1}, "e": [1, 2]}), strategy: Strategy::AllLevels, format: format.into(), alg: "ES256".into(), decoys: false, holder };
+            let Out::Ok(issued) = cfg.issue() else { return fail("issue_sd_jwt failed on a plain credential", "Ok") };
+            let base = if case["stage"] == "presentation" {
+                let Out::Ok(mut h) = sut::holder_new(&issued, format) else { return fail("SDJWTHolder::new failed on an issued SD-JWT", "Ok") };
+                match sut::present(&mut h, &select_all(&cfg.claims), cfg.kb().as_ref()) {
+                    Out::Ok(p) => p,
+                    o => return fail(format!("create_presentation -> {}", o.brief()), "Ok"),
+                }
+            } else {
+                issued
+            };
+            let Some(text) = mutate_text(&base, format, &case["mutation"]) else { return Verdict::Trivial };
+            exercise_text(&text, format, cfg.holder.is_some(), "ES256", &default_selections(), &mut log);
+        }
+        "crafted" => {
+            let templates: Vec<J> = case["disclosures"].as_array().cloned().unwrap_or_default();
+            let (payload, mut ds) = build_crafted(&case["payload"], &templates);
+            if let Some(keep) = case["present"].as_array() {
+                ds = keep.iter().filter_map(|i| ds.get(i.as_u64()? as usize).cloned()).collect();
+            }
+            if format == "compact" && ds.iter().any(|d| d.contains('~')) {
+                return Verdict::Trivial;
+            }
+            let key = case["key"].as_str().unwrap_or("ES256");
+            let mut parts = Parts { jwt: sign(&payload, key), disclosures: ds, kb: None };
+            if case["garbage_kb"].as_bool().unwrap_or(false) {
+                parts.kb = Some("eyJhbGciOiJFUzI1NiIsInR5cCI6ImtiK2p3dCJ9.e30.AAAA".to_string());
+            }
+            let text = parts.serialize(format);
+            let sels: Vec<Map<String, J>> = case["selections"].as_array().map(|a| a.iter().filter_map(|s| s.as_object().cloned()).collect()).unwrap_or_default();
+            exercise_text(&text, format, case["kb"].as_bool().unwrap_or(false), key, &sels, &mut log);
+        }
+        "select" => {
+            let Some(cfg) = Cfg::from_json(case) else { return Verdict::Trivial };
+            let Out::Ok(issued) = cfg.issue() else { return Verdict::Trivial };
+            let Out::Ok(mut h) = sut::holder_new(&issued, format) else { return Verdict::Trivial };
+            if let Some(narrow) = case["narrow"].as_object() {
+                let o = sut::present(&mut h, narrow, None);
+                log.note(&format!("create_presentation({})", short(&jstr(&case["narrow"]), 200)), &o);
+                let Out::Ok(p) = o else {
+                    return if log.panics.is_empty() { Verdict::Pass } else { fail(log.panics[0].clone(), "Ok or Err") };
+                };
+                let h2 = sut::holder_new(&p, format);
+                log.note("SDJWTHolder::new(narrowed presentation)", &h2);
+                match h2 {
+                    Out::Ok(x) => h = x,
+                    _ => return if log.panics.is_empty() { Verdict::Pass } else { fail(log.panics[0].clone(), "Ok or Err") },
+                }
+            }
+            if let Some(sel) = case["selection"].as_object() {
+                let o = sut::present(&mut h, sel, None);
+                log.note(&format!("create_presentation({}){}", short(&jstr(&case["selection"]), 300), if case["narrow"].is_object() { " on a holder built from a narrowed presentation" } else { "" }), &o);
+                if let Out::Ok(p) = o {
+                    let v = sut::verify(&p, &cfg.alg, None, format);
+                    log.note("SDJWTVerifier::new(holder output)", &v);
+                }
+                if let Some(k) = cfg.kb() {
+                    let o = sut::present(&mut h, sel, Some(&k));
+                    log.note("create_presentation with key binding", &o);
+                }
+            }
+        }
+        _ => return Verdict::Trivial,
+    }
+    if let Some(p) = log.panics.first() {
+        return fail(p.clone(), "every call returns Ok or Err");
+    }
+    if log.steps == 0 {
+        Verdict::Trivial
+    } else {
+        Verdict::Pass
+    }
+}
+
+pub fn check(case: &J) -> Verdict {
+    check_inproc(case)
+}
+
+fn check_deep(case: &J) -> Verdict {
+    check_in_child("c07.deep", case)
+}
+
+/// Entry point of the `child` sub-command.
+pub fn child_check(_gen: &str, case: &J) -> Verdict {
+    check_inproc(case)
+}
